@@ -93,9 +93,17 @@ def compare(ctx, infr, inam, edges, mode, case, tag):
     e_arg = edges if form > 1 else (list(map(float, edges)) if form == 0 else tuple(map(float, edges)))
     if form <= 1:
         ctx.count('edges_passed_as_' + ('list' if form == 0 else 'tuple'))
-    dense = SP.hilberthuang(infr, inam, e_arg, mode=mode)
-    sp = SP.hilberthuang(infr, inam, e_arg, mode=mode, return_sparse=True)
-    one = SP.hilberthuang_1d(infr, inam, e_arg, mode=mode)
+    if ctx.evaluations % 4 == 1:
+        # everything by keyword, in an order of the caller's choosing (a sorted options dictionary, for instance)
+        kws = [('freq_edges', e_arg), ('inam', inam), ('infr', infr), ('mode', mode)]
+        dense = SP.hilberthuang(**dict(kws))
+        sp = SP.hilberthuang(**dict(kws[::-1] + [('return_sparse', True)]))
+        one = SP.hilberthuang_1d(**dict([kws[1], kws[0], kws[3], kws[2]]))
+        ctx.count('calls_with_all_arguments_by_keyword')
+    else:
+        dense = SP.hilberthuang(infr, inam, e_arg, mode=mode)
+        sp = SP.hilberthuang(infr, inam, e_arg, mode=mode, return_sparse=True)
+        one = SP.hilberthuang_1d(infr, inam, e_arg, mode=mode)
     ctx.count('spectra_compared')
     if dense.shape != H.shape:
         ctx.violation('hht-shape', 'hilberthuang returned shape %s, expected [bins x time] = %s' % (dense.shape, H.shape), case)
@@ -246,6 +254,11 @@ def run_shard(ctx):
         if T > 100000:
             infr[T // 3:2 * T // 3] = hi + 1.0                       # a long stretch with nothing in range
         mode = gens.pick(rng, ['energy', 'amplitude'])
+        if rng.random() < .12:
+            # the unit of frequency is the caller's: the same recording and bins in Hz for very slow or very fast processes
+            u = float(gens.pick(rng, [1e-9, 1e-6, 1e6]))
+            infr, edges = infr * u, edges * u
+            ctx.count('cases_in_other_frequency_units')
         # "all frequency/amplitude arrays": memory layout and frequency dtype are the caller's business
         fr = rng.random()
         if fr < .15:
